@@ -78,6 +78,12 @@ func (nullListener) OnError(err error) bool { return true }
 
 func genCfg(t *rapid.T, serials []uint32) hook.ClientCfg {
 	c := hook.ClientCfg{HasBroadcast: rapid.Bool().Draw(t, "has_broadcast"), BroadcastIP: [4]byte{192, 168, 1, 255}, BroadcastPort: 60005, Debug: gen.Debug(t, "debug")}
+	if rapid.Bool().Draw(t, "bind") {
+		c.BindIP, c.BindPort = rapid.SampledFrom([][4]byte{{192, 168, 1, 5}, {0, 0, 0, 0}}).Draw(t, "bind.ip"), uint16(rapid.SampledFrom([]int{0, 50000, 60000}).Draw(t, "bind.port"))
+	}
+	if rapid.Bool().Draw(t, "listen.addr") {
+		c.HasListen, c.ListenIP, c.ListenPort = true, rapid.SampledFrom([][4]byte{{192, 168, 1, 5}, {0, 0, 0, 0}, {192, 168, 1, 100}}).Draw(t, "listen.ip"), uint16(rapid.SampledFrom([]int{60001, 60000, 60005}).Draw(t, "listen.port"))
+	}
 	for _, s := range serials {
 		switch rapid.IntRange(0, 3).Draw(t, "device.kind") {
 		case 0: // not configured
@@ -137,6 +143,35 @@ func genHistory(t *rapid.T) history {
 	}
 	h.Cfg[0] = genCfg(t, us)
 	h.Cfg[1] = genCfg(t, us)
+	// address arguments assembled from PARTS of the client's own configuration (its listen, bind, broadcast and controller
+	// addresses and port numbers, the unspecified address): the request carries the arguments, whatever they coincide with
+	for i := range h.Steps {
+		st := &h.Steps[i]
+		if st.Event != nil || (st.Case.Call.Op != "SetListener" && st.Case.Call.Op != "SetAddress") || rapid.IntRange(0, 1).Draw(t, "from.config") != 0 {
+			continue
+		}
+		cfg := h.Cfg[st.Client%2]
+		ips := [][4]byte{{0, 0, 0, 0}, cfg.ListenIP, cfg.BindIP, cfg.BroadcastIP, {255, 255, 255, 255}, {127, 0, 0, 1}}
+		ports := []uint16{cfg.ListenPort, cfg.BindPort, cfg.BroadcastPort, 60000, 60001, 60002}
+		for _, d := range cfg.Devices {
+			if d.HasAddr {
+				ips, ports = append(ips, d.IP), append(ports, d.Port)
+			}
+		}
+		ip := ips[rapid.IntRange(0, len(ips)-1).Draw(t, "config.ip")]
+		port := ports[rapid.IntRange(0, len(ports)-1).Draw(t, "config.port")]
+		if st.Case.Call.Op == "SetListener" {
+			if port == 0 && ip != [4]byte{} {
+				port = 60001 // (an IPv4 address with port 0 is rejected: C07's subject)
+			}
+			st.Case.Call.Listener, st.Case.Call.Port = ip, port
+		} else {
+			st.Case.Call.Address = ip
+			if rapid.Bool().Draw(t, "config.gateway") {
+				st.Case.Call.Gateway = ips[rapid.IntRange(0, len(ips)-1).Draw(t, "config.gw")]
+			}
+		}
+	}
 	if rapid.IntRange(0, 2).Draw(t, "zone.kind") == 0 {
 		h.Zone = rapid.SampledFrom(zones.Spread(24)).Draw(t, "zone")
 	}
@@ -204,8 +239,10 @@ func checkHistory(h history) (f *rp.Fail) {
 
 func checkHistoryZ(h history) *rp.Fail {
 	ca, cb := h.Cfg[0], h.Cfg[1]
-	if h.Listen {
+	if h.Listen && !ca.HasListen {
 		ca.HasListen, ca.ListenIP, ca.ListenPort = true, [4]byte{127, 0, 0, 1}, 60001
+	}
+	if h.Listen && !cb.HasListen {
 		cb.HasListen, cb.ListenIP, cb.ListenPort = true, [4]byte{127, 0, 0, 1}, 60002
 	}
 	ua, da := hook.Mem(ca)
